@@ -177,6 +177,37 @@ def run(ctx):
     res.site(key, True, {"receiver": recv, "verdict": "ok" if ok else "VIOLATION"})
     if not ok:
         res.find(key, w.loc(), "the instructions are not added to self.clone_without_body_instructions()", "definitions are lost or the body appears twice")
+    # the generated DECLARE takes effect: add_instruction stores a declaration by `memory_regions.insert(name, ..)`, which
+    # replaces whatever the program declared under that name (a shorter region or one of another type), directly under the
+    # match on the instruction kind
+    ai = require_fn(db, res, PROGRAM + "::add_instruction")
+    if ai:
+        key = "K7|generated-declaration-takes-effect"
+        stores = []
+        others = []
+        for bb, t, c in ai.calls():
+            if not c or not t["args"]:
+                continue
+            recv = fn_expr_operand(ai, t["args"][0])
+            if recv[0] == "field" and recv[2] == "memory_regions" and recv[1][0] == "param" and recv[1][1] == 1:
+                if c.get("name") == "insert" and "IndexMap" in callee_path(c):
+                    stores.append((bb, t))
+                else:
+                    others.append(c.get("name"))
+        ok = False
+        detail = {"insert_calls": len(stores), "other_uses_of_memory_regions": sorted(set(x for x in others if x))}
+        if len(stores) == 1 and not others:
+            bb, t = stores[0]
+            a = [fn_expr_operand(ai, x) for x in t["args"]]
+            from_decl = lambda e, nm: e[0] == "field" and e[2] == nm and e[1][0] == "field" and e[1][1][0] == "as" and e[1][1][2] == "Declaration"
+            val_ok = a[2][0] == "agg" and a[2][1].endswith("MemoryRegion") and from_decl(a[2][3].get("size", ("x",)), "size") and from_decl(a[2][3].get("sharing", ("x",)), "sharing")
+            deps = sorted(ai.control_deps(bb, transitive=False))
+            only_match = len(deps) == 1 and ai.blocks[deps[0][0]]["t"]["k"] == "switch" and fn_expr_operand(ai, ai.blocks[deps[0][0]]["t"]["d"])[0] == "discr"
+            ok = from_decl(a[1], "name") and val_ok and only_match
+            detail.update({"key_is_declared_name": from_decl(a[1], "name"), "value_is_declared_size_and_sharing": val_ok, "unconditional_in_arm": only_match})
+        res.site(key, True, dict(detail, verdict="ok" if ok else "VIOLATION"))
+        if not ok:
+            res.find(key, ai.loc(), "Program::add_instruction does not store a DECLARE by an unconditional memory_regions.insert(name, MemoryRegion { size, sharing }) (%s): the counter declaration generated by wrap_in_loop may not take effect" % detail, "a program that declares `shots INTEGER[1]` wrapped with counter cell shots[1]: the generated `DECLARE shots INTEGER[2]` is ignored and the loop addresses one past the end")
     # K3 clone_without_body_instructions
     adt = db.adts[PROGRAM]
     for i, j, s in cw.stmts():
